@@ -106,7 +106,7 @@ def decode_cause(batch, sid, x, doc, fmt, which):
         if c:
             return c
         shapes = [s for s in c08.code_shapes(batch, sid) if "map" in s]
-        if shapes and x.get("spaths") == ["<not-a-BuildErrors>"]:
+        if shapes:
             return "+".join(shapes)
     if c08.has_fraction_zero(srcgen.dumps(doc)):
         return "integer-written-with-fraction"
@@ -147,7 +147,7 @@ def run(ctx, verdict, replay=None, model_ok=True):
                 job = dict(job, pkg="k%03d" % len(replay_jobs))
                 job["schema_text"] = re.sub(r"(?m)^package \w+", "package " + job["pkg"], job["schema_text"])
                 replay_jobs.append((camp.add_schema_text(job["pkg"], job["fmt"], job["schema_text"]), job))
-        per_fmt = 200 if thorough else 14
+        per_fmt = 500 if thorough else 20
         k = 0
         for fmt in srcgen.FORMATS:
             for _ in range(per_fmt):
@@ -226,7 +226,12 @@ def run(ctx, verdict, replay=None, model_ok=True):
 
     budget = {"n": 40}
 
+    pf_safe = set(ev["PF_SAFE"])
+
     def report(sig, i, d, extra=None):
+        # "safe" = some document of the group fails INSIDE the fragment go_roundtrip_nf_partial covers:
+        # no exclusion of roundtrip_safe explains it
+        sig = dict(sig, fragment="safe" if i in pf_safe else "excluded")
         if budget["n"] <= 0:
             return
         job = camp.job_payload(i)
@@ -268,8 +273,12 @@ def run(ctx, verdict, replay=None, model_ok=True):
         j, r = camp.jobs[i], camp.results[i]
         x = r["res"][d]
         diffs = le_null_diffs(j["pydocs"][d], x["enc" if tag == "std" else "senc"])
+        cause = classify_diffs(diffs)
+        from checks import c08
+        if not diffs and batch.schemas[j["sid"]][1] == "cue" and c08.has_fraction_zero(j["docs"][d]):
+            cause = "integral-float-printed-without-fraction:cue"
         report({"kind": "reencoded-document-rejected-by-source-schema" + ("" if tag == "std" else "(strict)"),
-                "cause": classify_diffs(diffs)}, i, d,
+                "cause": cause}, i, d,
                {"differences": [{"path": list(p_), "original": a_, "reencoded": b_} for p_, a_, b_ in diffs]})
     # generated code that does not compile cannot decode anything
     from checks import c13
@@ -289,6 +298,14 @@ def run(ctx, verdict, replay=None, model_ok=True):
     mm = sorted(set(ev["MM_STD"]) | set(ev["MM_STRICT"]) | set(ev["MM_SPEC01"]))
     unexplained = [{"job": camp.job_payload(i), "observed": camp.results[i],
                     "which": [k for k in ("MM_STD", "MM_STRICT", "MM_SPEC01") if i in ev[k]]} for i in mm[:20]]
+
+    # ---- the in-process harness produces what the real CLI produces
+    sample = [sid for sid, _ in plan][:: max(1, len(plan) // (30 if thorough else 6))]
+    cli = gencode.cli_crosscheck(ctx, batch, sample)
+    ctx.log("cog CLI cross-check: %d pipelines, %d identical" % (cli["checked"], cli["identical"]))
+    for dif in cli["differences"][:3]:
+        verdict.unproved("correspondence", {"theorem": "in-process harness (verifh_gen gen) == `cog generate` CLI output",
+                                            "first_mismatch": dif})
 
     # ---- src_valid stream: coq Src.valid against the reference validators (all generated documents)
     src_stats = src_valid_stream(ctx, camp, plan, live, verdicts)
@@ -345,6 +362,7 @@ def run(ctx, verdict, replay=None, model_ok=True):
         "outcome_histogram": out_hist,
         "property_failures_counted": counts,
         "src_valid_vs_reference": src_stats,
+        "cli_crosscheck": cli,
         "unmodelled_groups": len(ev["UNM"]),
         "mismatches_model_vs_impl": {k: len(ev[k]) for k in ("MM_STD", "MM_STRICT", "MM_SPEC01")},
         "groups_with_a_document_in_the_safe_fragment_of_go_roundtrip_nf_partial": len(ev["SAFE"]),
